@@ -15,8 +15,20 @@ PROP = {
 }
 
 META = {
-    "text": "Lean theorems: the decoder inverts the kernel's octal escaping for every byte string and every escape set containing the backslash (unescape_mangle); per-line and overlay-option recovery theorems; the Lean model of ProbeMounts/GetMount/GetMountSources is tied to the Go code by differential runs on generated and mutated mount tables, and the implementation's observation is judged against an independent Lean specification of what the kernel renders.",
+    "text": "Lean theorems (Lc/Props/C12.lean, all full, no partial ones): "
+            "unescape_mangle (the decoder inverts the kernel's octal escaping for every byte string and every escape set containing the backslash); "
+            "mangle_no_sep / mangle_no_sep_fields (escaped text contains no byte of the escape set other than backslash and octal digits: no blank, tab, newline, and in option values no ',' '='); "
+            "overlay_opts_recovered (for every super-option list - any order, foreign options, repeated keys, any value bytes - parseOverlayOpts of the rendered text yields the last lowerdir/upperdir/workdir); "
+            "probeLine_render (for every well-formed mount and every parser state, reading the rendered line appends exactly the expected entry, updates device table and shadow set; 0..n optional fields, arbitrary bytes in root/mountpoint/source/overlay dirs); "
+            "probe_render (whole table: probeMounts(render t) = ok with list = entries t, in order, and the expected device table; uses scanLines_render: the line scanner returns exactly the rendered lines); "
+            "entries_inShadow (the theorem's shadow flags are the Spec's shadowFlags, which the driver's oracle uses); "
+            "getMount_last / getMount_recovers (GetMount(mp) returns the entry of the last mount at mp; with pairwise distinct mountpoints every mount is found); "
+            "layer_recognised, layerMount_wf, layer_recognised_any_base (a mount at base/layers/x/build is found at exactly that path for every byte string base); "
+            "shadow_iff_ancestor (distinct ids, parents listed first: InShadow iff not itself devtmpfs/sysfs and some proper ancestor by parent id is); "
+            "sources_recovered (GetMountSources on the parsed table = Spec.expectedSources for every mount of every table); "
+            "cr_at_line_end_lost (witness that the one WF restriction on path bytes is needed: a last super-option value ending in CR is truncated by bufio.ScanLines). "
+            "The Lean model of ProbeMounts/GetMount/GetMountSources is tied to the Go code by differential runs on generated and mutated mount tables, and the implementation's observation is judged against an independent Lean specification of what the kernel renders.",
     "design_ref": "§4 C12",
-    "note": "Trusted: Lean kernel; my transcription of the kernel's mountinfo rendering (Lc/Spec/KernelEscape, KernelRender); the correspondence harness; bufio.Scanner 64 KiB line limit assumed not reached. Whole-table theorem status is stated in DESIGN.md §4 C12.",
+    "note": "Trusted: Lean kernel; my transcription of the kernel's mountinfo rendering (Lc/Spec/KernelEscape, KernelRender); the correspondence harness; bufio.Scanner 64 KiB line limit assumed not reached. Well-formedness (Spec.KMount.WF): token fields non-empty without blank/LF/CR, optional fields other than \"-\", at least one super option, keys without \",\" \"=\", all path-like fields arbitrary bytes except that the value of the LAST super option must not end in CR (kernel does not escape CR; line readers strip it).",
     "technique": "Lean 4 proof (induction over byte strings) + differential correspondence model vs Go",
 }
